@@ -139,7 +139,7 @@ def pick_routes(t, rng, limit):
 
 def equiv_batches(cat, chk):
     rng = chk.rng
-    limit = 99 if chk.thorough else 7
+    limit = 99 if chk.thorough else 6
     batches = []
 
     def batch(members, bg=0, kind=""):
@@ -165,7 +165,7 @@ def equiv_batches(cat, chk):
             batch(uniq, 0, "routes:" + g)
     # values of different classes against each other
     allt = [t for g, ts in cat.groups.items() if g != "big" for t in ts]
-    for _ in range(60 if chk.thorough else 16):
+    for _ in range(60 if chk.thorough else 12):
         mem = []
         for t in rng.sample(allt, 9):
             mem.append((t, rng.randrange(len(t.routes))))
@@ -200,6 +200,8 @@ def equiv_program(cat, batches, local, inst0):
 def describe(t):
     if t.nodes is None:
         c = t.canon
+        if t.cls == "flo":
+            return "flonum %s" % t.routes[0].expr
         if isinstance(c, int) and abs(c) > 10 ** 12:
             c = "%s%d-bit integer" % ("-" if c < 0 else "", abs(c).bit_length())
         elif isinstance(c, (str, tuple)) and len(str(c)) > 60:
@@ -574,6 +576,58 @@ def gen_history(cat, chk, hno, fe, cfg, eqv, good, nops):
     return dict(no=hno, fe=fe, cfg=cfg, eqv=eqv, insts=insts, ops=ops)
 
 
+def tlc_scripts(sc, chk, num):
+    """Operation scripts generated by TLC (-simulate) from Map.tla itself (spec/MapGen.tla)."""
+    r = vlib.run_tlc("MapGen.tla", "MapGen.cfg", sc.path, workers=4, simulate=num, depth=30, seed=chk.seed, deadlock=False, timeout=300, heap="2g")
+    if r.violated or (r.error and "HIST" not in r.out):
+        raise Broken("MapGen failed: %s %s" % (r.violated, (r.error or "")[:500]))
+    out, seen = [], set()
+    for line in r.out.splitlines():
+        m = re.match(r'<<"HIST", "(.*)">>$', line)
+        if m and m.group(1) not in seen:
+            seen.add(m.group(1))
+            out.append(json.loads(m.group(1).replace('\\"', '"')))
+    if not out:
+        raise Broken("MapGen produced no behaviour")
+    return out
+
+
+def script_history(cat, chk, hno, fe, cfg, eqv, good, scripts):
+    """Concrete history from TLC-generated scripts: every abstract key class becomes a catalogue term (or, in
+    eq?/eqv? tables, a location), every occurrence of it one of the term's routes; the two abstract values and
+    updater arguments become concrete values."""
+    rng = random.Random(chk.seed * 100003 + hno)
+    pool = key_pool(cat, eqv, good, rng, 40)
+    insts = list(pool)
+    by_class = {}
+    for i, (t, ri) in enumerate(insts):
+        by_class.setdefault(key_class(eqv, t, i + 1), []).append(i + 1)
+    classes = sorted(by_class, key=lambda c: -len(by_class[c]))
+    ops = []
+    for sno, script in enumerate(scripts):
+        ks = rng.sample(classes[:max(3, len(classes) // 2)], 3)      # prefer classes with several routes
+        vals = rng.sample(range(1000), 2)
+        for op in script:
+            name = op[0]
+            if fe == "69" and name in ("clear", "intern", "pop", "empty"):
+                continue
+            if name == "make":
+                ops.append(("make", op[1], cfg, eqv))
+            elif name in ("set", "intern"):
+                ops.append((name, op[1], rng.choice(by_class[ks[op[2] - 1]]), vals[op[3]]))
+            elif name in ("del", "ref", "refmiss", "reft", "refd", "ex"):
+                ops.append((name, op[1], rng.choice(by_class[ks[op[2] - 1]])))
+            elif name in ("upd", "updmiss"):
+                ops.append((name, op[1], rng.choice(by_class[ks[op[2] - 1]]), vals[op[3]]))
+            elif name in ("updt", "updd"):
+                ops.append((name, op[1], rng.choice(by_class[ks[op[2] - 1]]), vals[op[3]], vals[op[4]]))
+            elif name in ("copy", "merge"):
+                ops.append((name, op[1], op[2]))
+            else:
+                ops.append((name, op[1]))
+    return dict(no=hno, fe=fe, cfg=cfg, eqv=eqv, insts=insts, ops=ops, origin="tlc-simulate")
+
+
 def sexp(x):
     if isinstance(x, str):
         return json.dumps(x)
@@ -605,17 +659,28 @@ def run_history(build, sc, cat, hist, tag=""):
     return dict(hist=hist, trace=trace, r=r, rc=rc, stderr=err, nterm=len(tevs), tevs=tevs, prog=prog)
 
 
-KEY_FREE_TAGS = ("update-missing-key", "pop-empty", "size", "fold", "keys", "values", "alist", "walk", "copy", "merge", "clear", "make", "empty", "count")
+KEYED_TAGS = ("ref:", "ref-thunk:", "ref-default:", "exists:", "set:", "delete:")     # the nature of the key matters for the key of the finding
 
 
 def map_phase(chk, build, sc, cat, good):
-    nh = 48 if chk.thorough else 20
+    nh = 48 if chk.thorough else 16
     hists = []
     for i in range(nh):
         fe = "69" if i % 2 == 0 else "125"
         cfg, eqv = CFGS[fe][(i // 2) % len(CFGS[fe])]
         nops = chk.rng.choice((500, 500, 350, 200)) if chk.thorough else chk.rng.choice((500, 300, 200, 120))
         hists.append(gen_history(cat, chk, i + 1, fe, cfg, eqv, good, nops))
+    # behaviours of the specification itself, walked by TLC, replayed on the real tables
+    scripts = tlc_scripts(sc, chk, 12 if chk.thorough else 3)
+    per = 4
+    nscript_h = 0
+    for j in range(0, min(len(scripts), 48 if chk.thorough else 16), per):
+        i = len(hists)
+        fe = "69" if nscript_h % 2 == 0 else "125"
+        cfg, eqv = CFGS[fe][(chk.seed + nscript_h // 2) % len(CFGS[fe])]
+        hists.append(script_history(cat, chk, i + 1, fe, cfg, eqv, good, scripts[j:j + per]))
+        nscript_h += 1
+    chk.cov["map_histories_from_tlc_simulation"] = nscript_h
     findings = {}
     accepted = 0
     nops_total = 0
@@ -681,7 +746,7 @@ def map_phase(chk, build, sc, cat, good):
             tag = m.group(1) if m else ("%s:%s" % (ev.get("e"), r.violated or "structure"))
             key = "map:" + tag
             kterm = None
-            if "k" in ev and isinstance(ev["k"], int) and 0 < ev["k"] <= len(hist["insts"]) and not tag.startswith(KEY_FREE_TAGS):
+            if "k" in ev and isinstance(ev["k"], int) and 0 < ev["k"] <= len(hist["insts"]) and tag.startswith(KEYED_TAGS):
                 kterm, kri = hist["insts"][ev["k"] - 1]
                 key += ":%s-table:%s-key" % (hist["eqv"], kterm.kind)
             f = findings.get(key)
@@ -735,47 +800,47 @@ def binding_self_test(sc, equiv_traces, map_trace):
             break
     if target is None:
         raise Broken("self test: no same-value observation in any trace")
-    # (a) flip equal? on a pair of equal values
-    bad = dict(evs[target], equal=0)
-    pa = sc.file("selftest_a.ndjson")
-    with open(pa, "w") as f:
-        f.write("\n".join(lines[:target] + [json.dumps(bad)] + lines[target + 1:]) + "\n")
-    r = vlib.run_tlc("EquivTrace.tla", "EquivTrace.cfg", sc.path, env={"TRACE": pa}, workers=1, timeout=600, heap="3g")
-    done["flipped-equal"] = ("equal", target + 1) in soft_rejects(r)
-    # (b) change one hash value of one of the two instances
+    def write(name, ls):
+        p = sc.file(name)
+        with open(p, "w") as f:
+            f.write("\n".join(ls) + "\n")
+        return p
+
+    def tlc(mod, p):
+        return vlib.run_tlc(mod + ".tla", mod + ".cfg", sc.path, env={"TRACE": p}, workers=1, timeout=600, heap="3g")
     ia = next(n for n, e in enumerate(evs) if e["e"] == "Inst" and e["i"] == evs[target]["a"])
-    bad = dict(evs[ia], h=[evs[ia]["h"][0] + "1"] + evs[ia]["h"][1:])
-    pb = sc.file("selftest_b.ndjson")
-    with open(pb, "w") as f:
-        f.write("\n".join(lines[:ia] + [json.dumps(bad)] + lines[ia + 1:]) + "\n")
-    r = vlib.run_tlc("EquivTrace.tla", "EquivTrace.cfg", sc.path, env={"TRACE": pb}, workers=1, timeout=600, heap="3g")
-    done["changed-hash"] = ("hash", target + 1) in soft_rejects(r)
-    # (c) remove the observation
-    pc = sc.file("selftest_c.ndjson")
-    with open(pc, "w") as f:
-        f.write("\n".join(lines[:target] + lines[target + 1:]) + "\n")
-    r = vlib.run_tlc("EquivTrace.tla", "EquivTrace.cfg", sc.path, env={"TRACE": pc}, workers=1, timeout=600, heap="3g")
-    done["removed-observation"] = rejected_at(r) is not None
-    # (d) change one answer of a table
-    lines = open(map_trace).read().splitlines()
-    evs = [json.loads(x) for x in lines]
-    target = next((n for n, e in enumerate(evs) if e["e"] in ("RefDefault", "RefThunk") and e["res"] >= 0), None)
-    if target is None:
+    mlines = open(map_trace).read().splitlines()
+    mevs = [json.loads(x) for x in mlines]
+    mt = next((n for n, e in enumerate(mevs) if e["e"] in ("RefDefault", "RefThunk") and e["res"] >= 0), None)
+    ms = next((n for n, e in enumerate(mevs) if e["e"] == "Set"), None)
+    if mt is None or ms is None:
         raise Broken("self test: no successful lookup in the map trace")
-    bad = dict(evs[target], res=(evs[target]["res"] + 1) % 1000)
-    pd = sc.file("selftest_d.ndjson")
-    with open(pd, "w") as f:
-        f.write("\n".join(lines[:target] + [json.dumps(bad)] + lines[target + 1:]) + "\n")
-    r = vlib.run_tlc("MapTrace.tla", "MapTrace.cfg", sc.path, env={"TRACE": pd}, workers=1, timeout=600, heap="3g")
-    ra = rejected_at(r)
-    done["changed-table-answer"] = bool(ra and ra[0] == target + 1 and "C15_MAP_REJECT" in r.out)
-    # (e) drop a Set event: the table is then larger than the map says
-    target = next(n for n, e in enumerate(evs) if e["e"] == "Set")
-    pe = sc.file("selftest_e.ndjson")
-    with open(pe, "w") as f:
-        f.write("\n".join(lines[:target] + lines[target + 1:]) + "\n")
-    r = vlib.run_tlc("MapTrace.tla", "MapTrace.cfg", sc.path, env={"TRACE": pe}, workers=1, timeout=600, heap="3g")
-    done["removed-set-event"] = rejected_at(r) is not None
+
+    def flipped_equal():      # equal? answered #f on two instances of one value
+        r = tlc("EquivTrace", write("selftest_a.ndjson", lines[:target] + [json.dumps(dict(evs[target], equal=0))] + lines[target + 1:]))
+        return ("equal", target + 1) in soft_rejects(r)
+
+    def changed_hash():       # one hash value of one of the two instances altered
+        bad = dict(evs[ia], h=[evs[ia]["h"][0] + "1"] + evs[ia]["h"][1:])
+        r = tlc("EquivTrace", write("selftest_b.ndjson", lines[:ia] + [json.dumps(bad)] + lines[ia + 1:]))
+        return ("hash", target + 1) in soft_rejects(r)
+
+    def removed_observation():
+        r = tlc("EquivTrace", write("selftest_c.ndjson", lines[:target] + lines[target + 1:]))
+        return rejected_at(r) is not None
+
+    def changed_table_answer():
+        bad = dict(mevs[mt], res=(mevs[mt]["res"] + 1) % 1000)
+        r = tlc("MapTrace", write("selftest_d.ndjson", mlines[:mt] + [json.dumps(bad)] + mlines[mt + 1:]))
+        ra = rejected_at(r)
+        return bool(ra and ra[0] == mt + 1 and "C15_MAP_REJECT" in r.out)
+
+    def removed_set_event():  # the table is then larger than the map says
+        r = tlc("MapTrace", write("selftest_e.ndjson", mlines[:ms] + mlines[ms + 1:]))
+        return rejected_at(r) is not None
+    tests = [flipped_equal, changed_hash, removed_observation, changed_table_answer, removed_set_event]
+    for t, ok in zip(tests, vlib.parallel(lambda t: t(), tests, jobs=5)):
+        done[t.__name__] = ok
     failed = [k for k, v in done.items() if not v]
     if failed:
         raise Broken("binding self test: corrupted traces were accepted: %s" % failed)
@@ -786,7 +851,7 @@ def model_checking(chk, sc, out):
     try:
         r = vlib.run_tlc("Map.tla", "MapMC.cfg", sc.path, workers=4, coverage=True, timeout=600, heap="3g")
         out["map"] = r
-        cfg = "EquivMC4.cfg" if chk.thorough else "EquivMC.cfg"
+        cfg = "EquivMCV.cfg" if chk.thorough else "EquivMC.cfg"
         r = vlib.run_tlc("EquivMC.tla", cfg, sc.path, workers=8 if chk.thorough else 4, timeout=1500, heap="3g")
         out["equiv"] = r
     except Exception as e:        # reported by the main thread
